@@ -464,6 +464,7 @@ pub fn dispatch(op: &str, args: &[Val]) -> Val {
         "c15d" => c15d(args),
         "c14c" => crate::conv::c14c(args),
         "c19" => crate::conv::c19(args),
+        "c19p" => crate::conv::c19p(suffix, args),
         "c16" => c16(suffix, args),
         "c17" => fam!(c17, suffix, args),
         _ => c("unknownop", vec![]),
